@@ -1493,8 +1493,25 @@ func (n *node) RouteApplicationStart(
 }
 
 func (n *node) RouteNodeDown(name gen.Atom, reason error) {
+	// consumers of the local events living on that node are gone with it
+	// (CleanupNode drops their relations without reporting them). count them out
+	gone := make(map[gen.Event]int32)
+	n.events.Range(func(k, _ any) bool {
+		ev := k.(gen.Event)
+		for _, pid := range n.targetManager.GetConsumersForTarget(ev) {
+			if pid.Node == name {
+				gone[ev]++
+			}
+		}
+		return true
+	})
+
 	// Get targets and consumers affected by node down, then cleanup
 	linkTargetsWithConsumers, monitorTargetsWithConsumers := n.targetManager.CleanupNode(name)
+
+	for ev, count := range gone {
+		n.eventConsumersGone(ev, count)
+	}
 
 	// Send exit messages for link targets that were cleaned up
 	for target, linkConsumers := range linkTargetsWithConsumers {
